@@ -21,10 +21,13 @@ RULE = ("Hypothesis builds a series of 2..60 samples (uniform: integer / hour / 
         "uniform (step h, interior points jittered by 1e-7..5e-6 h, first step == last step), nanosecond lattices "
         "(1e-9 / 1e-10 x integers with gaps 1..7), epoch time stamps (1.7e9 + seconds, plain and nearly uniform)) "
         "and r in 1..12 (structure, weaver), r = 1 (identity) or a factor pair (a, b) with a*b <= 24 (composition); "
-        "the Weaver is used fresh and with a working series different from the reference; recall: five calls in a "
+        "the Weaver is used fresh, after one preparatory step that moves the abscissae (shift_x, scale_x, normalize_x, "
+        "truncate_by_index(start > 0), interpolate(n)) and with a working series different from the reference; in "
+        "the weaver and history sub-checks a fifth of the objects is constructed as Weaver(None, y) (class "
+        "construction:x=None, abscissae 0..len-1, checked); recall: five calls in a "
         "row on the same x (identical input after the caller overwrote the previous result in place, other y, other "
         "r), direct and through fresh Weavers; history: one Weaver, 1..3 repeats (r in 1..5) interleaved with 0..3 "
-        "of trend / noise / smooth / scale_y / shift_y / shift_x / truncate_by_index / truncate_by_value / "
+        "of trend / noise / smooth / scale_y / shift_y / shift_x / scale_x / normalize_x / truncate_by_index / truncate_by_value / "
         "append_one_sample / restore_original / interpolate(n), every repeat judged against the closed form of "
         "copies of get() and get_reference() taken just before it. Non-trivial = "
         "non-uniform spacing and r >= 2 (composition: a >= 2 and b >= 2; identity: non-uniform spacing or integer / "
@@ -284,6 +287,29 @@ def inputs(case, kx="x", ky="y"):
     return narrow_array(x, case.get(kx + "dtype")), narrow_array(y, case.get(ky + "dtype"))
 
 
+def index_construction(draw, s):
+    """construction class 'x=None' (mass ~1/5): Weaver(None, y), the abscissae are the sample index 0..len-1"""
+    if draw(st.integers(0, 4)) != 0:
+        return s
+    s = dict(s, x=list(range(len(s["x"]))), xkind="index(x=None)", xint=True, x_none=True)
+    s.pop("xdtype", None)
+    return s
+
+
+def make_weaver(case):
+    xa, ya = inputs(case)
+    if not case.get("x_none"):
+        return Weaver(xa, ya)
+    w = Weaver(None, ya)
+    got = w.x.tolist() if isinstance(w.x, np.ndarray) else None
+    if got != case["x"]:
+        raise Violation(f"Weaver(None, y) with {len(case['y'])} values: x is {got!r:.200}, expected 0..{len(case['y']) - 1}")
+    return w
+
+
+PREP_OPS = ["shift_x", "scale_x", "normalize_x", "truncate_index", "interpolate"]
+
+
 def leaves_dtype(x, dtype, r):
     """does the exact r-fold extension of x (or the shift of its last copy) leave the range / precision of dtype?"""
     if dtype is None or r < 2:
@@ -315,6 +341,8 @@ def series_classes(case, x, r=1, kx="x", ky="y"):
     if case.get(ky + "dtype"):
         cls.add("ydtype:" + case[ky + "dtype"])
         cls.add("narrow-y")
+    if case.get("x_none"):
+        cls.add("construction:x=None")
     if case.get("xint"):
         cls.add("int-x")
     if case.get("yint"):
@@ -419,19 +447,53 @@ def composition_body(ctx, case):
 
 @st.composite
 def weaver_case(draw, ctx):
-    s = draw(base_series(ctx))
-    case = dict(s, r=draw(REPEATS), xw=None, yw=None)
-    if draw(st.integers(0, 2)) != 0:
+    s = index_construction(draw, draw(base_series(ctx)))
+    case = dict(s, r=draw(REPEATS), xw=None, yw=None, prep=None)
+    how = draw(st.integers(0, 5))
+    if how >= 3:
         o = draw(base_series(ctx))
         case.update(xw=o["x"], yw=o["y"], wkind=o["xkind"], xwdtype=o.get("xdtype"), ywdtype=o.get("ydtype"))
+    elif how >= 1 and not s.get("xdtype"):
+        # one preparatory step that moves the abscissae; repeat is then judged against the state it finds
+        op = dict(op=draw(st.sampled_from(PREP_OPS)))
+        if op["op"] == "shift_x":
+            op.update(v=draw(st.one_of(st.sampled_from([1.0, -2.5, 100.0, 0.5]), fl(-100.0, 100.0))))
+        elif op["op"] == "scale_x":
+            op.update(v=draw(st.one_of(st.sampled_from([2.0, 0.5, 0.25, 3.0]), fl(0.1, 10.0))))
+        elif op["op"] == "normalize_x":
+            lo = draw(st.one_of(st.sampled_from([0.0, -1.0, 5.0]), fl(-10.0, 10.0)))
+            op.update(lo=lo, hi=lo + draw(st.one_of(st.sampled_from([1.0, 24.0]), fl(0.5, 100.0))))
+        elif op["op"] == "truncate_index":
+            op.update(i=draw(st.integers(0, 10 ** 4)), j=draw(st.integers(0, 10 ** 4)), from_one=True)
+        else:
+            op.update(n=draw(st.integers(2, 40)), method="linear")
+        case["prep"] = op
     return case
 
 
 def weaver_body(ctx, case):
     x, y, r = case["x"], case["y"], case["r"]
-    w = Weaver(*inputs(case))
+    w = make_weaver(case)
     cls = series_classes(case, x, r) | {r_class(r)}
     xw, yw = x, y
+    if case.get("prep"):
+        try:
+            with np.errstate(all="ignore"):
+                applied = _apply(w, case["prep"], ctx)
+        except Exception as e:       # not this property's business
+            ctx.count(f"setup-step-failed:{case['prep']['op']}:{type(e).__name__}")
+            return
+        cur, ref = _snapshot("get()", w.get()), _snapshot("get_reference()", w.get_reference())
+        if not applied or cur is None or ref is None:
+            ctx.count("prepared-state-not-a-valid-series")
+            return
+        cls |= {"prepared:" + case["prep"]["op"], "prepared"}
+        w.repeat(r)
+        check_extension(f"Weaver.repeat({r}).get() after {case['prep']['op']}", cur[0], cur[1], r, w.get())
+        check_extension(f"Weaver.repeat({r}).get_reference() after {case['prep']['op']}", ref[0], ref[1], r,
+                        w.get_reference())
+        ctx.record(case, cls, r >= 2 or bool(case.get("x_none")))
+        return
     if case["xw"] is not None:
         xw, yw = case["xw"], case["yw"]
         w.x, w.y = narrow_array(xw, case.get("xwdtype")), narrow_array(yw, case.get("ywdtype"))
@@ -448,7 +510,8 @@ def weaver_body(ctx, case):
     check_extension(f"Weaver.repeat({r}).get()", xw, yw, r, w.get())
     check_extension(f"Weaver.repeat({r}).get_reference()", x, y, r, w.get_reference())
     ctx.record(case, cls, (("non-uniform" in cls or "working:non-uniform" in cls) and r >= 2)
-               or "extension-leaves-dtype" in cls or "working-extension-leaves-dtype" in cls)
+               or "extension-leaves-dtype" in cls or "working-extension-leaves-dtype" in cls
+               or ("construction:x=None" in cls and "working-differs-from-reference" in cls))
 
 
 # ---- repeated calls in one process: results are fresh arrays, nothing is remembered between calls -------------------------
@@ -509,7 +572,7 @@ def recall_body(ctx, case):
 # ---- Weaver history: every repeat extends the series as it is NOW -----------------------------------------------------------
 
 HIST_OPS = ["trend", "trend", "noise", "smooth", "scale_y", "shift_y", "truncate_index", "truncate_index",
-            "truncate_value", "append", "append", "restore", "interpolate", "shift_x"]
+            "truncate_value", "append", "append", "restore", "interpolate", "shift_x", "scale_x", "normalize_x"]
 
 
 @st.composite
@@ -524,6 +587,11 @@ def hist_op(draw):
         d.update(frac=draw(st.sampled_from([0.0, 0.1, 0.5, 1.0])))
     elif op in ("scale_y", "shift_y", "shift_x"):
         d.update(v=draw(st.one_of(st.sampled_from([2.0, 0.5, -1.0, 10.0]), fl(0.1, 10.0))))
+    elif op == "scale_x":
+        d.update(v=draw(st.one_of(st.sampled_from([2.0, 0.5, 0.25, 3.0]), fl(0.1, 10.0))))
+    elif op == "normalize_x":
+        lo = draw(st.one_of(st.sampled_from([0.0, -1.0, 5.0]), fl(-10.0, 10.0)))
+        d.update(lo=lo, hi=lo + draw(st.one_of(st.sampled_from([1.0, 24.0]), fl(0.5, 100.0))))
     elif op in ("truncate_index", "truncate_value"):
         d.update(i=draw(st.integers(0, 10 ** 4)), j=draw(st.integers(0, 10 ** 4)))
     elif op == "append":
@@ -538,6 +606,7 @@ def history_case(draw, ctx):
     s = draw(base_series(ctx))
     if len(s["x"]) > 30:
         s = dict(s, x=s["x"][:30], y=s["y"][:30])
+    s = index_construction(draw, s)
     prog = []
     for k in range(draw(st.integers(1, 3))):
         prog += draw(st.lists(hist_op(), min_size=0 if k == 0 else 1, max_size=ctx.pick(2, 3)))
@@ -582,10 +651,16 @@ def _apply(w, op, ctx):
         w.shift_y(op["v"])
     elif name == "shift_x":
         w.shift_x(op["v"])
+    elif name == "scale_x":
+        w.scale_x(op["v"])
+    elif name == "normalize_x":
+        w.normalize_x(op["lo"], op["hi"])
     elif name == "truncate_index":
         if m < 3:
             return False
         i = op["i"] % (m - 1)
+        if op.get("from_one"):
+            i = 1 + op["i"] % (m - 2)
         j = i + 2 + op["j"] % (m - i - 1)
         w.truncate_by_index(i, j)
     elif name == "truncate_value":
@@ -604,7 +679,7 @@ def _apply(w, op, ctx):
 
 
 def history_body(ctx, case):
-    w = Weaver(*inputs(case))
+    w = make_weaver(case)
     cls = series_classes(case, case["x"])
     judged, since_repeat, total = 0, [], 1
     for op in case["prog"]:
